@@ -151,7 +151,10 @@ class PauliInteractionGate(gate_features.InterchangeableQubitsGate, eigen_gate.E
         return f'({base}**{proper_repr(self._exponent)})'
 
     def _json_dict_(self) -> dict[str, Any]:
-        return protocols.obj_to_dict_helper(self, ["pauli0", "invert0", "pauli1", "invert1"])
+        result = protocols.obj_to_dict_helper(self, ["pauli0", "invert0", "pauli1", "invert1"])
+        if self.exponent != 1:
+            result['exponent'] = self.exponent
+        return result
 
 
 PauliInteractionGate.CZ = PauliInteractionGate(pauli_gates.Z, False, pauli_gates.Z, False)
